@@ -10,6 +10,7 @@ import EAO.Driver.Periodic
 import EAO.Driver.Split
 import EAO.Driver.State
 import EAO.Driver.Prices
+import EAO.Driver.Linked
 /-!
 Line-protocol driver: one JSON request per line on stdin, one JSON response per line on stdout.
 `{"ok": …}` or `{"err": "<class>"}`.  Unknown or ill-formed requests are answered with
@@ -19,7 +20,7 @@ operations it knows.
 open Lean EAO EAO.Driver
 
 def handlers : List (String → Json → Option (Except String Json)) :=
-  [handleCore, handleGrid, handleOrderBook, handleContract, handleStorage, handleSlp, handleCHP, handleScaled, handlePeriodic, handleSplit, handleState, handlePrices]
+  [handleCore, handleGrid, handleOrderBook, handleContract, handleStorage, handleSlp, handleCHP, handleScaled, handlePeriodic, handleSplit, handleState, handlePrices, handleLinked]
 
 def handle (j : Json) : Except String Json := do
   let op ← field j "op" Json.getStr?
